@@ -9,7 +9,7 @@ CLAIM = {
          "the real ethernet()/parse chain. On every feasible path: construction raises nothing, the parsed flags form a prefix of the chain, the "
          "unparsed remainder is raw bytes and a suffix of the input, and str(), dump() and pack() of the result raise nothing (text is checked by "
          "dry rendering: types and argument counts, numerals not expanded)."
-         " Also: tunnels nested up to the size of a jumbo frame (65517 bytes in the thorough tier) under the default recursion limit, a bound on the number of pack() calls when re-serialising, and templates for RIP masks, DNS 4-character names, MPTCP options in a full 40-byte option area and ND link-layer-address options of any length.",
+         " Also: tunnels nested up to the size of a jumbo frame (65517 bytes in the thorough tier) under the default recursion limit, a bound on the number of pack() calls when re-serialising, and templates for RIP masks, DNS 4-character names, MPTCP options in a full 40-byte option area and ND link-layer-address options of any length. Complete LLDPDUs whose chassis / port ids have network-address and MAC lengths with symbolic subtype and bytes.",
  'note': "Trusted: CPython, z3, symx proxies/shims. Bounded by the stated frame lengths; DNS/DHCP/LLDP/ICMPv6 bodies are reached through templates "
          "only. Known raising paths are listed in known_findings.json and reported as KNOWN-FINDING, any other raising path is a VIOLATION.",
 }
